@@ -9,7 +9,7 @@ import z3
 from . import ops
 from .ops import arith, compare, concat, concrete_bool, concrete_int, simp, str_of, truth
 from .state import ContractError, OutOfSubset, SymRaise
-from .values import (BoundMethod, Chr, ClassVal, Cursor, Dec, DictObj, Fmt, FrameObj, FuncVal, ListObj, ModuleVal, Opt, RecObj,
+from .values import (BoundMethod, Chr, ClassVal, Cursor, Dec, DictObj, Fmt, FrameObj, FuncVal, ListObj, ModuleVal, Opt, RecObj, RowView,
                      Ref, Rope, SetObj, StrSort, Tok, Unknown, ValSort, is_strterm, is_stringy, lit, norm_str, rope_of,
                      to_z3)
 
@@ -154,7 +154,7 @@ class ExprMixin:
             return concat(a, b)
         if isinstance(op, ast.Add) and isinstance(a, tuple) and isinstance(b, tuple):
             return a + b
-        if isinstance(a, Ref) or isinstance(b, Ref):
+        if isinstance(a, (Ref, RowView)) or isinstance(b, (Ref, RowView)):
             return self.seq_binop(st, op, a, b, node)
         if isinstance(op, ast.Mult) and (isinstance(a, str) or isinstance(b, str)):
             s_, n_ = (a, b) if isinstance(a, str) else (b, a)
@@ -205,7 +205,7 @@ class ExprMixin:
         if isinstance(op, ast.Add):
             return list_concat(self, st, a, b, node)
         if isinstance(op, ast.Mult):
-            lst, n = (a, b) if isinstance(a, Ref) else (b, a)
+            lst, n = (a, b) if isinstance(a, (Ref, RowView)) else (b, a)
             return list_repeat(self, st, lst, n, node)
         if isinstance(op, (ast.BitAnd, ast.BitOr, ast.Sub)):
             return set_binop(self, st, op, a, b, node)
